@@ -40,10 +40,10 @@ func main() {
 		fmt.Fprintln(os.Stderr, "trace: -out required")
 		os.Exit(2)
 	}
-	wd := 150 * time.Second
+	wd := 120 * time.Second
 	if cfg.Tier == "thorough" {
 		cfg.Scale *= 20
-		wd = 900 * time.Second
+		wd = 600 * time.Second
 	}
 	if v := os.Getenv("VERIF_WATCHDOG_S"); v != "" {
 		if n, err := strconv.Atoi(v); err == nil && n > 0 {
